@@ -5930,6 +5930,11 @@ class PyCdlib:
             if mac:
                 efi = True
 
+        # The EFI image is recorded in MBR partition entry 2 and the Mac image
+        # in entry 3, so the ISO partition itself cannot use those.
+        if (efi and part_entry == 2) or (mac and part_entry in (2, 3)):
+            raise pycdlibexception.PyCdlibInvalidInput('The partition entry is needed for the EFI or Mac image')
+
         if part_type is None:
             part_type = 0x17
             if mac or efi:
